@@ -141,12 +141,14 @@ def expected_targets(case, roadm_site, kind, baud, slot):
     return [target_dbm(pol, val, b, s) for b, s in zip(baud, slot)]
 
 
-def make_si(spec, pch_dbm):
+def make_si(spec, pch_dbm, order=None):
+    """order: permutation in which the carriers are handed to the constructor (the result must not depend on it)"""
     import numpy as np
     from gnpy.core.info import create_arbitrary_spectral_information
+    o = list(range(len(spec['f']))) if order is None else order
     return create_arbitrary_spectral_information(
-        frequency=np.array(spec['f']), pch=1e-3 * 10 ** (np.array(pch_dbm) / 10), baud_rate=np.array(spec['baud']),
-        slot_width=np.array(spec['slot']), delta_pdb_per_channel=np.array(spec['dp']), tx_osnr=40.0, tx_power=1e-3,
+        frequency=np.array(spec['f'])[o], pch=1e-3 * 10 ** (np.array(pch_dbm)[o] / 10), baud_rate=np.array(spec['baud'])[o],
+        slot_width=np.array(spec['slot'])[o], delta_pdb_per_channel=np.array(spec['dp'])[o], tx_osnr=40.0, tx_power=1e-3,
         roll_off=0.1, pmd=2e-12, pdl=0.25, label='x')
 
 
@@ -166,14 +168,19 @@ def levels(pattern, n):
     return [LEVELS[2] if i % 2 else LEVELS[1] for i in range(n)]
 
 
-def judge_crossing(case, site, kind, pre, post, viol, where):
+def judge_crossing(case, site, kind, pre, post, viol, where, dp_of=None):
     """compare one ROADM crossing (pre/post snapshot dicts) with the oracle"""
     import numpy as np
     f = pre['f']
     if len(post['f']) != len(f) or not np.array_equal(post['f'], f):
         viol.append(dict(fingerprint='roadm-changed-channel-set', what=f'{where}: channel set changed'))
         return 0
-    tgt = np.array(expected_targets(case, site, kind, pre['baud'], pre['slot'])) + pre['dp']
+    # the offset of a channel is the one it was configured with (by frequency), whatever the order of construction
+    dp = pre['dp'] if dp_of is None else np.array([dp_of[round(float(x))] for x in f])
+    if dp_of is not None and not np.allclose(dp, pre['dp'], atol=1e-12):
+        viol.append(dict(fingerprint='channel-offset-moved-to-another-channel', what=f'{where}: per-channel offsets seen by the '
+                         f'ROADM {pre["dp"].tolist()} differ from the configured ones {dp.tolist()} (by frequency)'))
+    tgt = np.array(expected_targets(case, site, kind, pre['baud'], pre['slot'])) + dp
     ml = np.array([maxloss_for(case, kind, x) for x in f])
     pin = 10 * np.log10(pre['pch']) + 30
     pout = 10 * np.log10(post['pch']) + 30
@@ -226,14 +233,21 @@ def run_net(case):
             ml = np.array([maxloss_for(case, kind, x) for x in spec['f']])
             for pat in PATTERNS:
                 pin = base_t + ml + np.array(levels(pat, len(spec['f'])))
-                si = make_si(spec, pin)
-                pre = c.snap(si)
-                out = roadm(si, degree=to, from_degree=frm)
-                post = c.snap(out)
-                transitions += 1
-                where = f'{kind} crossing of roadm {site} ({frm} -> {to}), spectrum {sname}, input pattern {pat}'
-                n0 = len(viol)
-                branches |= judge_crossing(case, site, kind, pre, post, viol, where)
+                dp_of = {round(float(x)): d for x, d in zip(spec['f'], spec['dp'])}
+                n = len(spec['f'])
+                for oname, order in (('ascending', None), ('descending', list(range(n))[::-1]),
+                                     ('interleaved', list(range(n))[::2] + list(range(n))[1::2])):
+                    si = make_si(spec, pin, order)
+                    pre = c.snap(si)
+                    out = roadm(si, degree=to, from_degree=frm)
+                    post = c.snap(out)
+                    transitions += 1
+                    where = (f'{kind} crossing of roadm {site} ({frm} -> {to}), spectrum {sname} built in {oname} order, '
+                             f'input pattern {pat}')
+                    n0 = len(viol)
+                    branches |= judge_crossing(case, site, kind, pre, post, viol, where, dp_of)
+                    if len(viol) > n0:
+                        break
                 if len(viol) == n0:
                     # reported attributes consistent with the snapshots
                     if not np.allclose(roadm.pch_out_dbm, 10 * np.log10(post['pch']) + 30, atol=1e-9) or \
@@ -246,6 +260,9 @@ def run_net(case):
             spec = SPECTRA[sname]
             spectrum = [dict(f=f, baud=b, slot=s, dp=d, power_dbm=p) for f, b, s, d, p in
                         zip(spec['f'], spec['baud'], spec['slot'], spec['dp'], [0.0, -12.0, 3.0, -30.0, 0.0, -5.0])]
+            if sname == 'edge2' or src == 'trx C':
+                spectrum = spectrum[::-1]        # carriers handed over in descending frequency order
+            dp_of = {round(float(x)): d for x, d in zip(spec['f'], spec['dp'])}
             req = c.make_request(equipment, src, dst, spectrum=spectrum)
             path = next(p for p in c.all_simple_trx_paths(net) if p[0].uid == src and p[-1].uid == dst)
             try:
@@ -268,7 +285,7 @@ def run_net(case):
                     rcase = case
                 transitions += 1
                 branches |= judge_crossing(rcase, site, kind, st['pre'], st['post'], viol,
-                                           f'{kind} crossing of roadm {site} in propagation {src}->{dst} ({sname})')
+                                           f'{kind} crossing of roadm {site} in propagation {src}->{dst} ({sname})', dp_of)
     for v in viol:
         v['case'] = case
     over_differs = case['override'] != 'none' and case['override'] != node_policy(case)[0]
@@ -353,7 +370,7 @@ def main(rep, tier, seed):
     rep.absorb(results)
     rep.cov['bound'] = ('full product: library policy x node policy{pch,psd,psw,library default} x 3 target values x per-degree '
                         'override{none,pch,psd,psw} x 2 values x ROADM type{no impairments, per-band impairment profiles, '
-                        'element-selected profile}; per network 3 crossing kinds x 4 spectra x 7 input-level patterns + 4 '
+                        'element-selected profile}; per network 3 crossing kinds x 4 spectra x 7 input-level patterns x 3 carrier construction orders + 4 '
                         'recorded propagations; part 2: all 8x8 subsets of equalisation keys at library and element level')
     rep.cov['space_size'] = len(cases)
     rep.cov['exhaustive'] = not stats['budget_hit'] and len(results) == len(cases)
